@@ -143,10 +143,45 @@ def sinfoOp : List String → String
     | some ls =>
       if res == "PANIC" then propfail "panic" else
       let m := match ServerInfo.fromResponse ls with
-        | .ok i => s!"ok:{toHexField (String.ofList i.name).toUTF8.data.toList}:{bit i.eightBit}{bit i.smtpUtf8}{bit i.startTls}{bit i.plain}{bit i.login}{bit i.xoauth2}"
+        | .ok i =>
+          -- `get_auth_mechanism`: the first mechanism of the preference list that the server offers
+          let pick (prefs : List (Char × Bool)) : Char := ((prefs.find? (·.2)).map (·.1)).getD '-'
+          let (p, l, x) := (('P', i.plain), ('L', i.login), ('X', i.xoauth2))
+          let picks := String.ofList [pick [p, l, x], pick [l, p, x], pick [x, l, p], pick [x], pick [l], pick []]
+          s!"ok:{toHexField (String.ofList i.name).toUTF8.data.toList}:{bit i.eightBit}{bit i.smtpUtf8}{bit i.startTls}{bit i.plain}{bit i.login}{bit i.xoauth2}:{picks}"
         | .noName => "noname"
       if m == res then "ok" else s!"MISMATCH sinfo model={m}"
     | none => "BADLINE"
   | _ => "BADLINE"
+
+def isAsciiWs (b : Byte) : Bool := (9 ≤ b.toNat && b.toNat ≤ 13) || b == 32
+
+/-- `str::split_whitespace().next()` on ASCII text -/
+def firstWord (l : Bytes) : Option Bytes :=
+  let r := l.dropWhile isAsciiWs
+  if r.isEmpty then none else some (r.takeWhile (fun b => !isAsciiWs b))
+
+def optHex : Option Bytes → String
+  | none => "none"
+  | some b => toHexField b
+
+/-- `racc <s> | ok:<code>:<is_positive><has own code><has another code>:<number>:<first word>:<first line>` or `err` -/
+def raccOp : List String → String
+  | [s, res] =>
+    if res == "PANIC" then propfail "panic" else
+    match ofHex s with
+    | some s =>
+      match parse s with
+      | .ok r _ =>
+        if r.lines.any (fun l => l.any (fun b => b.toNat ≥ 128)) then "ok skipped:non-ascii-text" else
+        let pos := match classify r.code with | .positive => "1" | _ => "0"
+        let n := r.code.1 * 100 + r.code.2.1 * 10 + r.code.2.2
+        let fl := r.lines.head?
+        let fw := fl.bind firstWord
+        let exp := s!"ok:{codeStr r.code}:{pos}10:{n}:{optHex fw}:{optHex fl}"
+        if res == exp then "ok" else s!"MISMATCH racc model={exp}"
+      | _ => if res == "err" then "ok" else "MISMATCH racc model=err"
+    | none => "BADLINE"
+  | l => if l.getLast? == some "PANIC" then propfail "panic" else "BADLINE"
 
 end LV.Driver.C15
